@@ -70,6 +70,16 @@ def cases(rng, tier, Case):
             while o < len(b) and 128 <= b[o] < 192:
                 o += 1
             res.append(Case("pos %s %d %d" % (hx(b), o, o + 1), "long", {"src": hx(b), "s": o, "e": o + 1}, compare=False))
+    # "and hence every source-position attribute in the output": whole documents with the source-position plugin; every
+    # data-sourcepos attribute must be the direct definition applied to the node's range -- also when an earlier core rule
+    # has put the nodes out of source order (plugin V of the harness reverses every child list; seed C15-7)
+    import mdgen
+    docs = ["# h\n\npara *e* `c`\nline2\n\n- a\n- b\n\n> q\n\n```\nx\n```\n\nlast é𝄞 [l](u)", "a\r\nb\r\rc\n\n# " + "é" * 40 + " *x*\n\n" + "y" * 50 + " **z**",
+            "x" * 15 + "é" + "y" * 20 + " *em* tail\n\n" + "é" * 16 + "*q*" + "w" * 16 + "é_r_"]
+    docs += [mdgen.clean_utf8(mdgen.gen_doc(rng)) for _ in range(60 if tier == "quick" else 3000)]
+    for d in docs:
+        for cfg, cmp_ in (("CsWS", True), ("CVS", False), ("CSV", False)):
+            res.append(Case("parse %s 100 T %s" % (cfg, hx(d)), "attr", {"doc": hx(d)}, compare=cmp_ and len(d) < 2000))
     return res
 
 
@@ -78,6 +88,18 @@ def oracle(case, io, mo):
         # the converter is only required to return for offsets on character boundaries (it slices the text);
         # a panic on a boundary offset is a failure
         return "implementation did not return normally: " + io[:160]
+    if "doc" in case.params:
+        from parsecommon import fields, parse_tree
+        b = unhx(case.params["doc"])
+        for n in parse_tree(fields(io)["tree"]):
+            for k, v in n.attrs:
+                if k == "data-sourcepos" and n.start is not None:
+                    l1, c1 = spec_pos(b, n.start)
+                    l2, c2 = spec_pos(b, n.end - 1 if n.end > 0 else n.end)
+                    want = "%d:%d-%d:%d" % (l1, c1, l2, c2)
+                    if v.decode() != want:
+                        return "data-sourcepos=%s on %s at [%d,%d) but the direct definition gives %s" % (v.decode(), n.kind, n.start, n.end, want)
+        return None
     b = unhx(case.params["src"])
     s, e = case.params["s"], case.params["e"]
     l1, c1 = spec_pos(b, s)
@@ -89,10 +111,15 @@ def oracle(case, io, mo):
 
 
 def project(o):
+    if " tree=" in o:
+        import parsecommon
+        return parsecommon.project(o)
     return o
 
 
 def nontrivial(case, io):
+    if "doc" in case.params:
+        return True
     b = unhx(case.params["src"])
     return (b"\n" in b or b"\r" in b or any(x >= 128 for x in b) or len(b) > 16)
 
